@@ -7,6 +7,7 @@ params cleaning, parser, loader.  Stub: the execute bodies of the probe commands
 from __future__ import annotations
 
 import copy
+from fractions import Fraction
 
 from ..core import EventLog, RunResult, SimAbort, h64
 from ..render import render, random_layout, PLAIN
@@ -78,10 +79,11 @@ def filter_refs(node, keep):
             new_args[slot] = v
     node["args"] = new_args
     plan = [mapping[o] for o in node.get("plan", []) if o in mapping]
-    present = set(plan)
-    for o in range(counter[1]):
-        if o not in present:
-            plan.append(o)
+    if not node.get("exact"):
+        present = set(plan)
+        for o in range(counter[1]):
+            if o not in present:
+                plan.append(o)
     node["plan"] = plan
     if not any(True for _ in iter_refs(new_args)) and node["cls"] in ("ProbeOp", "ProbeOpU"):
         pass  # an operator without references is still a valid (source-like) command
@@ -106,6 +108,18 @@ def normalize(sc):
 
 def deps_of(sc):
     return {n["name"]: list(dict.fromkeys(iter_refs(n["args"]))) for n in sc["nodes"]}
+
+
+def pulled_deps_of(sc):
+    """Dependencies a command actually reads (a plug-in may ignore a referenced input on some path)."""
+    out = {}
+    for n in sc["nodes"]:
+        refs = list(iter_refs(n["args"]))
+        if n.get("exact"):
+            out[n["name"]] = list(dict.fromkeys(refs[i] for i in n["plan"] if i < len(refs)))
+        else:
+            out[n["name"]] = list(dict.fromkeys(refs))
+    return out
 
 
 def closure(deps, start):
@@ -258,7 +272,12 @@ def _gen_nodes(rng, family, n):
             cls = "ProbeOp" if rng.random() < 0.7 else "ProbeOpU"
             args = _place(rng, [names[j] for j in refs[i]], family)
             node = {"name": names[i], "cls": cls, "args": args, "plan": []}
-            node["plan"] = _plan(rng, sum(1 for _ in iter_refs(args)))
+            nrefs = sum(1 for _ in iter_refs(args))
+            node["plan"] = _plan(rng, nrefs)
+            if nrefs and rng.random() < 0.12:
+                # a consumer that does not read some (or any) of the inputs it references, e.g. a fallback input
+                node["exact"] = True
+                node["plan"] = [o for o in node["plan"] if rng.random() < 0.5]
         if rng.random() < 0.12:
             node["meta"] = {"DisplayName": "n %d" % i, "K": "v"}
         nodes.append(node)
@@ -344,7 +363,118 @@ def generate(prop, rng, index, tier):
     return normalize(sc)
 
 
+def _generate_cyclic_eems(rng, index, tier):
+    """Cyclic models over real EEMS commands (which evaluate every input, also those with weight 0)."""
+    from .. import modelgen
+    from ..refmodel import eems as ref
+    from ..refmodel.declarations import table as decl_table
+    decl = decl_table("csv")
+    for _ in range(50):
+        model = modelgen.gen_model(rng, tier, ints=False, missing=False, ncmds=rng.randint(3, 7))
+        cmds = model["cmds"]
+        env = ref.run_model(model["table"], cmds)
+        byname = {c["name"]: c for c in cmds}
+        desc = {c["name"]: set() for c in cmds}          # descendants (consumers, transitively)
+        for c in cmds:
+            for r in ref.refs_of(c):
+                pass
+        deps = {c["name"]: set(ref.refs_of(c)) for c in cmds}
+        anc = {}
+        for c in cmds:                                    # cmds are in topological order
+            a = set()
+            for r in deps[c["name"]]:
+                a.add(r)
+                a |= anc.get(r, set())
+            anc[c["name"]] = a
+        cands = []
+        for x in cmds:
+            if x["cmd"] == "EEMSRead":
+                continue
+            for pname in ("InFieldName", "InFieldNames", "A", "B"):
+                if pname not in x["args"]:
+                    continue
+                need = decl[x["cmd"]]["params"][pname]["fz"]
+                # y: x itself or something that (transitively) consumes x, of the fuzziness the parameter wants
+                for y in cmds:
+                    if y["name"] == x["name"] or x["name"] in anc[y["name"]]:
+                        fy = env[y["name"]].fuzzy
+                        if need is None or need == fy:
+                            cands.append((x["name"], pname, y["name"]))
+        if not cands:
+            continue
+        xname, pname, yname = rng.choice(cands)
+        x = byname[xname]
+        v = x["args"][pname]
+        if isinstance(v, list):
+            pos = rng.randrange(len(v))
+            v[pos] = yname
+            if "Weights" in x["args"] and len(x["args"]["Weights"]) == len(v) and len(v) >= 2 and rng.random() < 0.6:
+                x["args"]["Weights"][pos] = 0              # a zero weight does not take the reference out of the graph
+                if sum(Fraction(str(w)) for w in x["args"]["Weights"]) == 0:
+                    x["args"]["Weights"][(pos + 1) % len(v)] = 1
+        else:
+            x["args"][pname] = yname
+        order = list(range(len(cmds)))
+        rng.shuffle(order)
+        return {"engine": ENGINE, "prop": "C14", "family": "cyclic-eems", "config": "cyclic-eems", "model": model,
+                "order": order, "nodes": [], "ops": [["RUN"]], "faults": [], "back_edge": [xname, pname, yname]}
+    return None
+
+
+def _execute_cyclic_eems(sc):
+    from mpilot.program import Program
+    from mpilot.exceptions import RecursiveModelStructure
+    from .. import modelgen
+    from ..render import render as rend
+    from ..simfs import SimFS
+    from ..seams import StdCapture
+    from . import modelsim
+
+    res = RunResult()
+    model = sc["model"]
+    cmds = model["cmds"]
+    n = len(cmds)
+    log = EventLog(cap=200 * (n + 8) + 1000)
+    res.log = log
+    log.emit("scenario", prop="C14", config="cyclic-eems", n=n, back_edge=sc.get("back_edge"))
+    nodes = modelsim.program_nodes(cmds, sc.get("order"), 0)
+    text, _ = rend(nodes, PLAIN)
+    fs = SimFS(log, res, files={model["table"]["path"]: modelgen.csv_text(model["table"])}, dirs=[modelgen.WORK])
+
+    def runaway(key, depth):
+        res.violate("C14.nesting", "C14.nesting unbounded", "execute nesting reached %d in %d commands" % (depth, n))
+
+    mon = ExecMonitor(log, nesting_cap=n + 3, on_runaway=runaway)
+    fake = {"nodes": [{"name": c["name"]} for c in cmds]}
+    with Hygiene(), fs, StdCapture(log):
+        outcome, exc = "ok", None
+        try:
+            program = Program.from_source(text, working_dir=model.get("working_dir", modelgen.WORK))
+            mon.install(list(program.command_library.values()))
+            program.run()
+        except SimAbort:
+            outcome = "abort"
+        except Exception as e:  # noqa
+            outcome, exc = "raise", e
+        finally:
+            mon.uninstall()
+    log.emit("outcome", outcome=outcome, exc=type(exc).__name__ if exc else None)
+    _judge_cyclic(fake, res, mon, outcome, exc, RecursiveModelStructure)
+    res.probe("cyclic model over real EEMS commands")
+    x = next((c for c in cmds if c["name"] == sc.get("back_edge", [None])[0]), None)
+    if x is not None and 0 in [w for w in x["args"].get("Weights", [])]:
+        res.probe("cycle closed through a zero-weight list entry")
+    res.case_key = h64([cmds, sc.get("order")])
+    res.schedule_key = h64(["eems", [ev[1]["cmd"] for ev in log.events if ev[0] == "exec-enter"]])
+    res.nontrivial = True
+    return res
+
+
 def _generate_cyclic(rng, index, tier):
+    if index % 6 == 5:
+        sc = _generate_cyclic_eems(rng, index, tier)
+        if sc is not None:
+            return sc
     kind = rng.choice(["self", "two", "k", "multi", "tail_in", "tail_out", "separate", "random"])
     ncyc = {"self": 1, "two": 2}.get(kind, rng.randint(2, 5))
     extra = 0 if kind in ("self", "two", "k") and rng.random() < 0.6 else rng.randint(0, 4)
@@ -395,7 +525,7 @@ def _generate_cyclic(rng, index, tier):
         "nodes": nodes, "src_count": n if route == "source" else (0 if route == "api" else rng.randint(0, n)),
         "api_objects": False,
         "layout": random_layout(rng, wild=rng.random() < 0.3),
-        "ops": [["RUN"]], "faults": [],
+        "ops": [["RUN"]] if rng.random() < 0.7 else [["RUN"], ["RUN"]], "faults": [],
         "knobs": {"reclimit": rng.choice([400, 1000, 3000])},
     }
     sc["layout"]["eol"] = "\n"
@@ -534,6 +664,7 @@ class _Ctx(object):
         self.log = log
         self.res = res
         self.plans = {n["name"]: n["plan"] for n in sc["nodes"]}
+        self.exact = {n["name"] for n in sc["nodes"] if n.get("exact")}
         self.expect_args = {n["name"]: n["args"] for n in sc["nodes"]}
         self.faults = [dict(f) for f in sc.get("faults", [])]
         self.serial = 0
@@ -547,9 +678,10 @@ class _Ctx(object):
 
     def pull_plan(self, name, nrefs):
         plan = [i for i in self.plans.get(name, []) if i < nrefs]
-        for i in range(nrefs):
-            if i not in plan:
-                plan.append(i)
+        if name not in self.exact:
+            for i in range(nrefs):
+                if i not in plan:
+                    plan.append(i)
         return plan
 
     def received(self, inst, shape):
@@ -642,6 +774,8 @@ def _api_value(v, program, objects):
 def execute(sc):
     if sc.get("config") == "eems":
         return _execute_eems(sc)
+    if sc.get("config") == "cyclic-eems":
+        return _execute_cyclic_eems(sc)
     import mpsim_probe as probe
     from mpilot.program import Program
     from mpilot.exceptions import MPilotError, RecursiveModelStructure
@@ -654,7 +788,7 @@ def execute(sc):
     ctx = _Ctx(sc, log, res)
     cyclic = sc["config"] == "cyclic"
     faulty = sc["config"] == "faults"
-    deps = deps_of(sc)
+    deps = pulled_deps_of(sc)
     pos = {nd["name"]: i for i, nd in enumerate(sc["nodes"])}
     gkey = h64(graph_key(sc))
     log.emit("scenario", prop=sc["prop"], config=sc["config"], n=n)
@@ -746,7 +880,11 @@ def execute(sc):
                 res.state_keys.add(h64([gkey, fin, op[0]]))
                 if cyclic:
                     _judge_cyclic(sc, res, mon, outcome, exc_obj, RecursiveModelStructure)
-                    break
+                    if outcome == "abort" or res.violations or op[0] != "RUN":
+                        break
+                    if sc["ops"].index(op) == 0 and len(sc["ops"]) > 1:
+                        res.probe("cyclic program run again after the rejection")
+                    continue
                 if outcome == "raise":
                     if not faulty:
                         res.violate("C01.raise", "C01.raise %s" % type(exc_obj).__name__,
@@ -847,6 +985,8 @@ def _finish(sc, res, mon, pos, gkey):
             res.probe("same dependency referenced twice by one command")
         if len(nd["plan"]) > len(refs):
             res.probe("dependency pulled more than once by one command")
+        if nd.get("exact") and len(set(nd["plan"])) < len(refs):
+            res.probe("consumer that does not read one of its referenced inputs")
     if sc.get("src_count", 0) and sc.get("src_count") < len(sc["nodes"]):
         res.probe("mixed construction (source + API)")
     if sc.get("src_count", 0) == 0:
@@ -862,6 +1002,12 @@ def shrink_candidates(sc):
     def clone():
         return copy.deepcopy(sc)
 
+    if sc.get("config") == "cyclic-eems":
+        if sc.get("order") != sorted(sc["order"]):
+            c = clone()
+            c["order"] = sorted(c["order"])
+            yield c
+        return
     if sc.get("config") == "eems":
         from ..refmodel import eems as ref
         if len(sc["ops"]) > 1:
@@ -933,7 +1079,7 @@ def shrink_candidates(sc):
             c["nodes"][i]["plan"] = []
             yield normalize(c)
         nrefs = sum(1 for _ in iter_refs(nd["args"]))
-        if nd["plan"] != list(range(nrefs)):
+        if nd["plan"] != list(range(nrefs)) and not nd.get("exact"):
             c = clone()
             c["nodes"][i]["plan"] = list(range(nrefs))
             yield c
@@ -941,6 +1087,10 @@ def shrink_candidates(sc):
             c = clone()
             c["nodes"][i].pop("meta")
             yield c
+        if nd.get("exact"):
+            c = clone()
+            c["nodes"][i].pop("exact")
+            yield normalize(c)
     # canonical construction and layout
     if sc.get("src_count") != len(sc["nodes"]):
         c = clone()
@@ -975,6 +1125,9 @@ def shrink_candidates(sc):
 
 
 def sample(sc):
+    if sc.get("config") == "cyclic-eems":
+        return {"family": "cyclic-eems", "commands": [[c["name"], c["cmd"], c["args"]] for c in sc["model"]["cmds"]],
+                "back_edge": sc.get("back_edge"), "file_order": sc.get("order")}
     if sc.get("config") == "eems":
         return {"family": "eems-model", "commands": [[c["name"], c["cmd"]] for c in sc["model"]["cmds"]],
                 "file_order": sc["sched"].get("order"), "history": sc["ops"]}
